@@ -47,8 +47,8 @@ ASSUMPTIONS = [
     "3-d: no two Neumann faces share an edge (the property's admissibility condition, by construction)",
     "boundary types are assigned per face (all components alike), Dirichlet or Neumann",
 ]
-REQUIRED = {"dim2": 0.2, "dim3": 0.2, "neumann-present": 0.3, "bc-all_dir": 0.08, "bc-mix": 0.3,
-            "field-rotation": 0.05, "field-translation": 0.05, "field-general": 0.15,
+REQUIRED = {"dim2": 0.2, "dim3": 0.2, "neumann-present": 0.3, "bc-all_dir": 0.05, "bc-mix": 0.25,
+            "field-rotation": 0.03, "field-translation": 0.03, "field-general": 0.12,
             "kind-tri": 0.02, "kind-tet": 0.01, "kind-poly": 0.02, "kind-polyx": 0.01, "perturbed": 0.05}
 
 FINDING_MIXED_FACES = "C13-mpsa-neumann-rhs-mixed-face-node-counts"
